@@ -1,6 +1,7 @@
 package main
 
 import (
+	"go/token"
 	"fmt"
 	"regexp"
 	"sort"
@@ -27,54 +28,7 @@ func checkC15(p *Prog, l *Ledger) {
 		return
 	}
 	// ---- S1
-	m := cs.Clauses["*ast.PrintStatement"]
-	reText := regexp.MustCompile(`^NFC\((stringify\((ev\[[^\]]*\]@\S+)\.val\)@\S+|conv:string\((ev\[[^\]]*\]@\S+)\.val\))\)$`)
-	mon := Monitor{Init: "start|", Step: func(s string, ev *Event) string {
-		ps := strings.SplitN(s, "|", 2)
-		switch ev.Op {
-		case "eval":
-			if ev.KV["child"] != "e.Expression" {
-				return "!the print clause evaluates " + ev.KV["child"]
-			}
-			if ev.KV["sig"] != "0" {
-				return "sig|"
-			}
-			return "val|" + ev.KV["res"]
-		case "print", "fprint", "io":
-			if ev.Op != "print" {
-				return "!the print clause performs " + ev.String()
-			}
-			switch ps[0] {
-			case "sig":
-				return "!output although the operand propagated a signal"
-			case "printed":
-				return "!a second stdout write in one print statement: " + ev.String()
-			case "start":
-				return "!output before the operand is evaluated"
-			}
-			if ev.KV["dirty"] == "T" {
-				return "!output although evaluating the operand reported an error"
-			}
-			if ev.KV["fn"] != "fmt.Println" || len(ev.Args) != 1 {
-				return "!the value is written with " + ev.KV["fn"] + "(" + strings.Join(ev.Args, ", ") + "): exactly one operand followed by exactly one newline is required (fmt.Println of one operand)"
-			}
-			mm := reText.FindStringSubmatch(ev.Args[0])
-			if mm == nil {
-				return "!what is printed (" + ev.Args[0] + ") is not NFC(text(value))"
-			}
-			if mm[2] != ps[1] && mm[3] != ps[1] {
-				return "!the printed text is derived from " + mm[2] + mm[3] + ", not from the statement's operand"
-			}
-			return "printed|" + ps[1]
-		case "return":
-			if ps[0] == "val" && ev.KV["raised"] != "T" {
-				return "!the print statement finishes without writing its value"
-			}
-			return ""
-		}
-		return s
-	}}
-	runMon(l, "C15/S1-one-line", "eval/PrintStatement", m, mon, "exactly one fmt.Println(NFC(text(value))) on success paths, none otherwise")
+	checkPrintClause(cs, l, "C15/S1-one-line")
 	// ---- S2
 	checkTextSites(p, l)
 	// stringify(nil) == "nil"
@@ -177,6 +131,34 @@ func checkTextSites(p *Prog, l *Ledger) {
 	if n < 3 {
 		l.Violate(rule+"/vacuity", "formatting sites", "", fmt.Sprintf("only %d value-formatting sites found (print, number+string, string+operand expected)", n))
 	}
+	// the text of a value is a function of the value alone: the text functions read and write no package-level state
+	// (a cache keyed by the number conflates values that compare equal but print differently, such as 0 and -0)
+	for _, fn := range fns {
+		cnt := map[string]int{}
+		instrsOf(fn, func(in ssa.Instruction) {
+			var g *ssa.Global
+			what := ""
+			switch x := in.(type) {
+			case *ssa.UnOp:
+				if gl, ok := x.X.(*ssa.Global); ok && x.Op == token.MUL && p.InModule(fn) && gl.Pkg != nil && p.InModulePkg(gl.Pkg) {
+					g, what = gl, "reads"
+				}
+			case *ssa.Store:
+				if gl, ok := x.Addr.(*ssa.Global); ok && gl.Pkg != nil && p.InModulePkg(gl.Pkg) {
+					g, what = gl, "writes"
+				}
+			}
+			if g == nil {
+				return
+			}
+			k := p.FuncKey(fn) + "#" + what + ":" + g.Name()
+			cnt[k]++
+			if cnt[k] > 1 {
+				return
+			}
+			l.Violate(rule, k, p.InstrPos(in), fmt.Sprintf("a text function %s the package-level variable %s: the text of a value then depends on what the program did before, not on the value alone", what, g.Name()))
+		})
+	}
 	// the print path and the concatenation path must not pre-process numbers differently: no arithmetic/rounding
 	// calls (math.*) inside the text functions
 	for _, fn := range fns {
@@ -188,4 +170,58 @@ func checkTextSites(p *Prog, l *Ledger) {
 			}
 		})
 	}
+}
+
+
+// checkPrintClause: the print statement writes exactly one line, NFC(text(value)), where text is the shared text
+// function (stringify → fmt %v), on success paths only.
+func checkPrintClause(cs *clauseSet, l *Ledger, rule string) {
+	m := cs.Clauses["*ast.PrintStatement"]
+	reText := regexp.MustCompile(`^NFC\((stringify\((ev\[[^\]]*\]@\S+)\.val\)@\S+|conv:string\((ev\[[^\]]*\]@\S+)\.val\))\)$`)
+	mon := Monitor{Init: "start|", Step: func(s string, ev *Event) string {
+		ps := strings.SplitN(s, "|", 2)
+		switch ev.Op {
+		case "eval":
+			if ev.KV["child"] != "e.Expression" {
+				return "!the print clause evaluates " + ev.KV["child"]
+			}
+			if ev.KV["sig"] != "0" {
+				return "sig|"
+			}
+			return "val|" + ev.KV["res"]
+		case "print", "fprint", "io":
+			if ev.Op != "print" {
+				return "!the print clause performs " + ev.String()
+			}
+			switch ps[0] {
+			case "sig":
+				return "!output although the operand propagated a signal"
+			case "printed":
+				return "!a second stdout write in one print statement: " + ev.String()
+			case "start":
+				return "!output before the operand is evaluated"
+			}
+			if ev.KV["dirty"] == "T" {
+				return "!output although evaluating the operand reported an error"
+			}
+			if ev.KV["fn"] != "fmt.Println" || len(ev.Args) != 1 {
+				return "!the value is written with " + ev.KV["fn"] + "(" + strings.Join(ev.Args, ", ") + "): exactly one operand followed by exactly one newline is required (fmt.Println of one operand)"
+			}
+			mm := reText.FindStringSubmatch(ev.Args[0])
+			if mm == nil {
+				return "!what is printed (" + ev.Args[0] + ") is not NFC(text(value))"
+			}
+			if mm[2] != ps[1] && mm[3] != ps[1] {
+				return "!the printed text is derived from " + mm[2] + mm[3] + ", not from the statement's operand"
+			}
+			return "printed|" + ps[1]
+		case "return":
+			if ps[0] == "val" && ev.KV["raised"] != "T" {
+				return "!the print statement finishes without writing its value"
+			}
+			return ""
+		}
+		return s
+	}}
+	runMon(l, rule, "eval/PrintStatement", m, mon, "exactly one fmt.Println(NFC(text(value))) on success paths, none otherwise")
 }
